@@ -13,11 +13,6 @@ namespace Dud
 
 variable {κ : Type}
 
-/-- commit accepts and the decoder leaves alone every entry name of the listing (at any depth) -/
-def NamesOKList (ctx : Ctx κ) (es : List (Name × Node κ)) : Prop :=
-  ∀ nm, nm ∈ allNamesList es → ctx.nameOK nm = true ∧
-    ∀ sch sum isDir, ctx.reload sch ⟨nm, sum, isDir⟩ = ⟨nm, sum, isDir⟩
-
 /-- Post-condition of `commitNode` on a fresh child artifact (the conclusion of C01). -/
 def NodePost (ctx : Ctx κ) (t : Node κ) : Prop :=
   ∀ (nm : Bytes) (s : Store κ) (strat : Strat), Consistent ctx s →
@@ -137,14 +132,6 @@ theorem dir_post {ctx : Ctx κ} (g : Good ctx) {es : List (Name × Node κ)}
     rw [hfuel]
     have hh : hasSum (m.digest ctx) = true := hasSum_H g _
     simp [checkoutNode, hh, Store.has_of_get ho, hread, hres]
-
-theorem namesOK_node {ctx : Ctx κ} {nm : Name} {n : Node κ} {r : List (Name × Node κ)}
-    (h : NamesOKList ctx ((nm, n) :: r)) : NamesOK ctx n :=
-  fun x hx => h x (mem_allNamesList_of_node hx)
-
-theorem namesOK_tail {ctx : Ctx κ} {nm : Name} {n : Node κ} {r : List (Name × Node κ)}
-    (h : NamesOKList ctx ((nm, n) :: r)) : NamesOKList ctx r :=
-  fun x hx => h x (mem_allNamesList_of_tail hx)
 
 mutual
 theorem commitNode_post {ctx : Ctx κ} (g : Good ctx) : ∀ (t : Node κ),
